@@ -1,6 +1,7 @@
 """Verification driver: explores a real function under a contract, collects and discharges obligations."""
 import os
 import subprocess
+import threading
 import tempfile
 import time
 import traceback
@@ -88,21 +89,66 @@ def _fresh_smt2(ob):
 
 
 def solve_obligation(ob, timeout_ms=20000, want_smt2=False, hints=()):
-    """z3 first (short budget), then cvc5 on the same query, then z3 with other configurations.
-    'sat' only from z3 (a model is needed for replay)."""
+    """z3 first (short budget) with cvc5 started alongside on hard-looking queries, then z3 with other
+    configurations.  'sat' only from z3 (a model is needed for replay)."""
+    from .ctx import has_quantifier
     zver = 'z3-%s' % z3.get_version_string()
-    first = min(timeout_ms, 6000)
     s = z3.Solver()
-    s.set('timeout', first)
+    s.set('timeout', 700)
     for h in ob.hyps:
         s.add(h)
     s.add(z3.Not(ob.goal))
     t0 = time.time()
     r = s.check()
+    proc = None
+    if r == z3.unknown:
+        # hard: run cvc5 in the background while z3 gets its longer budget
+        smt2_bg = _fresh_smt2(ob)
+        proc = start_cvc5(smt2_bg, timeout_ms)
+        s = z3.Solver()
+        s.set('timeout', min(timeout_ms, 8000))
+        for h in ob.hyps:
+            s.add(h)
+        s.add(z3.Not(ob.goal))
+        box = {}
+
+        def run_z3():
+            try:
+                box['r'] = s.check()
+            except Exception:
+                box['r'] = z3.unknown
+        th = threading.Thread(target=run_z3)
+        th.start()
+        cv = None
+        while th.is_alive():
+            th.join(0.05)
+            if proc is not None and proc.poll() is not None and cv is None:
+                cv = wait_cvc5(proc, 1000)
+                proc = None
+                if cv[0] == 'unsat':
+                    try:
+                        z3.main_ctx().interrupt()
+                    except Exception:
+                        pass
+        th.join()
+        r = box.get('r', z3.unknown)
+        if cv is not None:
+            if cv[0] == 'unsat' and r != z3.sat:
+                return 'unsat', 'cvc5-1.0.3', time.time() - t0, None, None, smt2_bg
+            if r == z3.unknown:
+                # cvc5 already answered (not unsat): skip straight to the alternative configurations
+                proc = None
+                cv_result = cv
+            else:
+                cv_result = cv
+        else:
+            cv_result = None
     dt = time.time() - t0
     if r == z3.unsat:
+        stop_cvc5(proc)
         return 'unsat', zver, dt, None, None, None
     if r == z3.sat:
+        stop_cvc5(proc)
         model = s.model()
         smt2 = _fresh_smt2(ob)
         # small-model bias for replay: try progressively weaker size hints
@@ -116,8 +162,12 @@ def solve_obligation(ob, timeout_ms=20000, want_smt2=False, hints=()):
             s.pop()
         return 'sat', zver, dt, model, None, smt2
     reason = s.reason_unknown()
-    smt2 = _fresh_smt2(ob)
-    st, secs = run_cvc5(smt2, timeout_ms)
+    smt2 = smt2_bg
+    if proc is None and cv_result is not None:
+        st, secs = cv_result
+    else:
+        st, secs = wait_cvc5(proc, timeout_ms)
+
     dt += secs
     if st == 'unsat':
         return 'unsat', 'cvc5-1.0.3', dt, None, None, smt2
@@ -233,6 +283,56 @@ def ground_instances(hyps, goal):
     return out
 
 
+def start_cvc5(smt2, timeout_ms):
+    try:
+        f = tempfile.NamedTemporaryFile('w', suffix='.smt2', delete=False)
+        f.write('(set-logic ALL)\n')
+        f.write(smt2)
+        f.close()
+        p = subprocess.Popen(['/usr/bin/cvc5', '--lang=smt2', '--strings-exp', '--tlimit=%d' % timeout_ms, f.name],
+                             stdout=subprocess.PIPE, stderr=subprocess.PIPE, text=True)
+        p._path = f.name
+        p._t0 = time.time()
+        return p
+    except Exception:
+        return None
+
+
+def stop_cvc5(p):
+    if p is None:
+        return
+    try:
+        p.kill()
+        p.communicate(timeout=5)
+    except Exception:
+        pass
+    try:
+        os.unlink(p._path)
+    except Exception:
+        pass
+
+
+def wait_cvc5(p, timeout_ms):
+    if p is None:
+        return 'error:not-started', 0.0
+    t0 = time.time()
+    try:
+        out, err = p.communicate(timeout=timeout_ms / 1000.0 + 5)
+        lines = (out or '').strip().splitlines()
+        st = lines[0] if lines else ('error:' + (err or '')[:100])
+    except Exception as e:
+        st = 'error:%s' % type(e).__name__
+        try:
+            p.kill()
+        except Exception:
+            pass
+    try:
+        os.unlink(p._path)
+    except Exception:
+        pass
+    return st, time.time() - t0
+
+
 def run_cvc5(smt2, timeout_ms):
     t0 = time.time()
     try:
@@ -300,6 +400,7 @@ def verify(contract, timeout_ms=20000, case_filter=None, mutate=None, verbose=Fa
             I = Interp(ctx, cfg)
             if mutate is not None:
                 I.ast_mutation = mutate
+            ctx.case = case
             args, kwargs, aux = contract.setup(I, case)
             aux_box['aux'] = aux
             ctx.aux = aux
